@@ -739,7 +739,7 @@ def c07_process_level(c):
 # that detaches its output -- next to ordinary commands: with a free slot the ordinary ones must go on being reaped and
 # started while it runs (the real poll loop and the real waitpid(); engine A's runner does not model a blocking wait).
 EARLY_CLOSE_MANIFEST = """rule quiet
-  command = exec >/dev/null 2>&1; sleep 1.6; date +%s.%N > $out
+  command = exec >/dev/null 2>&1; sleep 2.6; date +%s.%N > $out
 rule r
   command = sleep 0.15; date +%s.%N > $out
 build a: quiet
@@ -763,10 +763,10 @@ def early_close_case(ninja):
             return out
         t = {n: float(open(os.path.join(root, n)).read()) for n in "abcd"}
         out["times"] = {n: round(t[n] - min(t.values()), 2) for n in t}
-        late = [n for n in "bcd" if t[n] > t["a"] - 0.5]
+        late = [n for n in "bcd" if t[n] > t["a"] - 1.0]
         if late:
             out["facts"]["commands_waited_for_one_that_had_closed_its_output_early"] = True
-            out["problems"].append("-j2, 'a' (1.6 s, closed its output at once) next to three 0.15 s commands: %s finished only after / "
+            out["problems"].append("-j2, 'a' (2.6 s, closed its output at once) next to three 0.15 s commands: %s finished only after / "
                                    "when 'a' ended (%s): ninja sat in a blocking wait for 'a' with a free slot and startable commands"
                                    % (late, out["times"]))
     except Exception as e:  # noqa
